@@ -319,6 +319,17 @@ def geometric_values(cellobj, X, facet, itype):
         nref = reference_normal(cn, facet)
         n = K.T @ nref
         vals["n"] = n / np.linalg.norm(n)
+    # quantities defined through the vertices (any cell, any geometry degree)
+    ct0 = getattr(basix.CellType, cn)
+    topo = basix.topology(ct0)
+    VV = cellobj.coords[: len(topo[0])]
+    vals["celldiameter"] = max(np.linalg.norm(VV[i] - VV[j]) for i in range(len(VV)) for j in range(i + 1, len(VV)))
+    elens = [np.linalg.norm(VV[e[0]] - VV[e[1]]) for e in topo[1]]
+    vals["mincelledge"], vals["maxcelledge"] = min(elens), max(elens)
+    if facet is not None and itype != "vertex" and cellobj.tdim == 3:
+        fv = topo[2][facet]
+        fel = [np.linalg.norm(VV[e[0]] - VV[e[1]]) for e in topo[1] if e[0] in fv and e[1] in fv]
+        vals["minfacetedge"], vals["maxfacetedge"] = min(fel), max(fel)
     if cellobj.affine:
         ct = getattr(basix.CellType, cn)
         vals["cellvolume"] = abs(detJ) * basix.cell.volume(ct)
@@ -419,6 +430,12 @@ def _geo_value(t, g):
         if "facetarea" not in g:
             raise Unsupported("FacetArea")
         return g["facetarea"]
+    for cls, key in (("CellDiameter", "celldiameter"), ("MinCellEdgeLength", "mincelledge"), ("MaxCellEdgeLength", "maxcelledge"),
+                     ("MinFacetEdgeLength", "minfacetedge"), ("MaxFacetEdgeLength", "maxfacetedge")):
+        if isinstance(t, getattr(ufl.classes, cls)):
+            if key not in g:
+                raise Unsupported(cls)
+            return g[key]
     if isinstance(t, ufl.classes.Jacobian):
         return g["J"]
     if isinstance(t, ufl.classes.JacobianDeterminant):
